@@ -1,4 +1,461 @@
-(* C11 round trip — under construction *)
+(* C11 round trip — the loop over the rules section (line separators and
+   comment lines cost nothing / one round; a rule line one round by
+   [rule_line_roundtrip]; the end of the text), the whole theorem
+   [lex_roundtrip] on top of [declarations_roundtrip] (RoundDecl.v), what
+   [spec_of] is ([spec_of_faithful]) and the example that shows the hypotheses
+   satisfiable. *)
 From Coq Require Import List Arith NArith Bool Lia.
-From GV Require Import Common.Outcome C11.Model C11.Spec C11.Slices C11.Print C11.RoundSpec C11.RoundBase.
+From GV Require Import Common.Outcome C11.Model C11.Spec C11.Slices C11.EscProofs C11.Print C11.RoundSpec C11.RoundBase C11.RoundRule C11.RoundDecl.
 Import ListNotations.
+
+(* ---- the loop of parse_rules ------------------------------------------------------------ *)
+Lemma take_while_prefix : forall f w r, forallb f w = true -> take_while f (w ++ r) = w ++ take_while f r.
+Proof.
+  intros f w r Hw. induction w as [|c w IH]; simpl; [reflexivity|].
+  simpl in Hw. apply andb_prop in Hw. destruct Hw as [Hc Hw]. rewrite Hc, IH by exact Hw. reflexivity.
+Qed.
+
+Section Loop.
+  Variable src : text.
+  Variables awc pe : bool.
+
+  Notation loop := (parse_rules src awc pe [] repaired).
+
+  (* line separators before the position cost nothing *)
+  Lemma rules_skip_nl : forall pre w r fuel st errs,
+    src = pre ++ w ++ r -> forallb is_line_sep w = true ->
+    loop fuel (byte_len pre) st errs = loop fuel (byte_len (pre ++ w)) st errs.
+  Proof.
+    intros pre w r fuel st errs Hsrc Hw. destruct fuel as [|fuel]; [reflexivity|].
+    cbn [parse_rules].
+    assert (E : parse_nl src (byte_len pre) = parse_nl src (byte_len (pre ++ w))).
+    { unfold parse_nl. rewrite Hsrc. rewrite slice_from_at.
+      replace (pre ++ w ++ r) with ((pre ++ w) ++ r) by (rewrite <- app_assoc; reflexivity).
+      rewrite slice_from_at. cbn [obind]. rewrite take_while_prefix by exact Hw.
+      rewrite !byte_len_app. f_equal. lia. }
+    rewrite E. reflexivity.
+  Qed.
+
+  Lemma slash_not_nl : is_line_sep c_slash = false. Proof. reflexivity. Qed.
+  Lemma slash_not_ws : is_ws c_slash = false. Proof. reflexivity. Qed.
+
+  (* a comment line costs one round *)
+  Lemma rules_comment : forall pre body rest fuel st errs,
+    awc = true -> src = pre ++ ([c_slash; c_slash] ++ body) ++ rest -> no_nl body = true -> line_end rest ->
+    loop (S fuel) (byte_len pre) st errs = loop fuel (byte_len (pre ++ [c_slash; c_slash] ++ body)) st errs.
+  Proof.
+    intros pre body rest fuel st errs Hawc Hsrc Hb Hr. cbn [parse_rules]. rewrite Hsrc.
+    rewrite parse_nl_stay by (cbn [app hd_not]; reflexivity). cbn [lift lbind].
+    rewrite line_len_at_line; [|cbn [app]; exact Hb|exact Hr]. cbn [lift lbind].
+    rewrite Hawc. rewrite lookahead_at. cbn [app starts_with]. rewrite !N.eqb_refl. cbn [andb lift lbind].
+    rewrite (byte_len_app pre). reflexivity.
+  Qed.
+
+  Fixpoint rcomments (its : list ritem) : nat :=
+    match its with [] => 0 | RNl _ :: its' => rcomments its' | RComment _ _ :: its' => S (rcomments its') end.
+
+  Lemma rules_items : forall its pre rest fuel st errs,
+    src = pre ++ print_ritems its ++ rest -> forallb (wf_ritem awc) its = true ->
+    loop (rcomments its + fuel) (byte_len pre) st errs = loop fuel (byte_len (pre ++ print_ritems its)) st errs.
+  Proof.
+    induction its as [|it its IH]; intros pre rest fuel st errs Hsrc Hwf.
+    - cbn [print_ritems flat_map rcomments]. rewrite app_nil_r. reflexivity.
+    - cbn [forallb] in Hwf. apply andb_prop in Hwf. destruct Hwf as [Hit Hwf].
+      change (print_ritems (it :: its)) with (print_ritem it ++ print_ritems its) in *.
+      destruct it as [c|body nl]; cbn [print_ritem rcomments wf_ritem] in *.
+      + rewrite (rules_skip_nl pre [c] (print_ritems its ++ rest)).
+        * rewrite (IH (pre ++ [c]) rest fuel st errs); [rewrite <- app_assoc; reflexivity| |exact Hwf].
+          rewrite Hsrc. rewrite <- !app_assoc. reflexivity.
+        * rewrite Hsrc. rewrite <- !app_assoc. reflexivity.
+        * cbn [forallb]. rewrite Hit. reflexivity.
+      + unfold wf_comment in Hit. apply andb_prop in Hit. destruct Hit as [Hit Hnl].
+        apply andb_prop in Hit. destruct Hit as [Hawc Hb].
+        cbn [plus]. rewrite (rules_comment pre body (nl :: print_ritems its ++ rest)); [|exact Hawc| |exact Hb|exact Hnl].
+        2:{ rewrite Hsrc. repeat first [rewrite <- app_assoc | progress cbn [app]]. reflexivity. }
+        rewrite (rules_skip_nl (pre ++ [c_slash; c_slash] ++ body) [nl] (print_ritems its ++ rest)).
+        * rewrite (IH ((pre ++ [c_slash; c_slash] ++ body) ++ [nl]) rest fuel st errs); [| |exact Hwf].
+          -- f_equal. f_equal. repeat first [rewrite <- app_assoc | progress cbn [app]]. reflexivity.
+          -- rewrite Hsrc. repeat first [rewrite <- app_assoc | progress cbn [app]]. reflexivity.
+        * rewrite Hsrc. repeat first [rewrite <- app_assoc | progress cbn [app]]. reflexivity.
+        * cbn [forallb]. rewrite Hnl. reflexivity.
+  Qed.
+
+  Lemma rcomments_le : forall its, rcomments its <= byte_len (print_ritems its).
+  Proof.
+    induction its as [|[c|b nl] its IH]; [simpl; lia| |];
+      change (print_ritems (?x :: its)) with (print_ritem x ++ print_ritems its);
+      rewrite byte_len_app; cbn [rcomments print_ritem].
+    - lia.
+    - rewrite !byte_len_app. cbn [byte_len]. change (len_utf8 c_slash) with 1. lia.
+  Qed.
+
+  (* ---- how a rule line begins ---- *)
+  Lemma starts_with2_app : forall x y re more, re <> [] -> starts_with [x; y] re = false ->
+    hd_not (N.eqb y) more -> starts_with [x; y] (re ++ more) = false.
+  Proof.
+    intros x y re more Hre H Hm. destruct re as [|c [|d re]]; [contradiction| |exact H].
+    cbn [app starts_with]. destruct more as [|m more]; [apply andb_false_r|].
+    cbn [hd_not] in Hm. rewrite Hm. cbn [andb]. apply andb_false_r.
+  Qed.
+
+  Lemma ws_head : forall k w rest, w <> [] -> forallb is_ws w = true -> is_ws k = false ->
+    hd_not (N.eqb k) (w ++ rest).
+  Proof.
+    intros k [|c w] rest Hw Hall Hk; [contradiction|]. cbn [app hd_not].
+    cbn [forallb] in Hall. apply andb_prop in Hall. destruct Hall as [Hc _].
+    rewrite N.eqb_sym. apply ws_neq; assumption.
+  Qed.
+
+  Lemma rline_start : forall names last rl r rest,
+    wf_arule awc names r = true -> wf_rline awc last rl = true ->
+    (exists c tl, print_rline rl r = c :: tl /\ is_ws c = false) /\
+    starts_with [c_percent; c_percent] (print_rline rl r ++ rest) = false /\
+    (awc = true -> starts_with [c_slash; c_slash] (print_rline rl r ++ rest) = false).
+  Proof.
+    intros names last rl r rest Hr Hrl.
+    unfold wf_arule in Hr. apply andb_prop in Hr. destruct Hr as [_ Hre].
+    unfold wf_rline in Hrl.
+    apply andb_prop in Hrl. destruct Hrl as [Hrl _]. apply andb_prop in Hrl. destruct Hrl as [Hrl _].
+    apply andb_prop in Hrl. destruct Hrl as [Hrl _]. apply andb_prop in Hrl. destruct Hrl as [Hrl Hsp].
+    apply andb_prop in Hrl. destruct Hrl as [_ Hblanks].
+    unfold print_rline, rline_head, rline_re_field.
+    destruct (a_pre r) as [|n ns].
+    - unfold re_printable in Hre. apply andb_prop in Hre. destruct Hre as [_ Hst]. cbn [is_nil negb orb] in Hst.
+      unfold re_start_ok in Hst. apply andb_prop in Hst. destruct Hst as [Hst Hcm]. apply andb_prop in Hst. destruct Hst as [Hc Hpc].
+      assert (Hre' : a_re r <> []) by (destruct (a_re r); [discriminate|discriminate]).
+      assert (Hhd : exists c re, a_re r = c :: re /\ is_ws c = false).
+      { destruct (a_re r) as [|c re]; [discriminate|]. apply andb_prop in Hc. destruct Hc as [Hc _]. apply negb_true in Hc. eauto. }
+      apply negb_true in Hpc.
+      cbn [print_prefix app].
+      set (more := print_target (a_target r) ++ print_name rl (a_name r) ++ rl_trail rl ++ rest).
+      assert (E : (((a_re r ++ rl_blanks rl ++ [rl_sp rl]) ++ print_target (a_target r)) ++ print_name rl (a_name r) ++ rl_trail rl) ++ rest
+                  = a_re r ++ (rl_blanks rl ++ [rl_sp rl]) ++ more).
+      { unfold more. repeat first [rewrite <- app_assoc | progress cbn [app]]. reflexivity. }
+      assert (Hw : forallb is_ws (rl_blanks rl ++ [rl_sp rl]) = true).
+      { rewrite forallb_app. rewrite (all_iws_ws _ Hblanks). cbn [forallb]. rewrite (space_sep_ws _ Hsp). reflexivity. }
+      assert (Hne : rl_blanks rl ++ [rl_sp rl] <> []) by (destruct (rl_blanks rl); discriminate).
+      split; [|split].
+      + destruct Hhd as [c [re [Ere Hcw]]]. rewrite Ere. cbn [app]. eauto.
+      + rewrite E. apply starts_with2_app; [exact Hre'|exact Hpc|]. apply ws_head; [exact Hne|exact Hw|reflexivity].
+      + intros Hawc. rewrite Hawc in Hcm. cbn [andb] in Hcm. apply negb_true in Hcm.
+        rewrite E. apply starts_with2_app; [exact Hre'|exact Hcm|]. apply ws_head; [exact Hne|exact Hw|reflexivity].
+    - unfold print_prefix. cbn [app]. split; [|split; [reflexivity|intros _; reflexivity]].
+      eexists _, _. split; reflexivity.
+  Qed.
+
+  (* a rule line costs one round *)
+  Lemma rules_rule_line : forall last pre rest fuel st errs names rl r,
+    src = pre ++ print_rline rl r ++ rest -> line_end rest ->
+    wf_arule awc names r = true -> wf_rline awc last rl = true ->
+    forallb is_start_state_name names = true -> states_numbered names (start_states st) ->
+    (forall n, a_name r = Some n -> find_dupe (rules st) n = None) ->
+    loop (S fuel) (byte_len pre) st errs =
+    loop fuel (byte_len (pre ++ print_rline rl r)) (push_rule st (rule_of pe names (byte_len pre) rl r)) errs.
+  Proof.
+    intros last pre rest fuel st errs names rl r Hsrc Hend Hr Hrl Hv Hst Hdup.
+    destruct (rline_start names last rl r rest Hr Hrl) as [[c [tl [Hl Hc]]] [Hpc Hcm]].
+    pose proof (rule_line_roundtrip awc pe last src pre rest st errs names rl r Hsrc Hend Hr Hrl Hv Hst Hdup) as Hrule.
+    cbn [parse_rules]. rewrite Hsrc in *.
+    assert (Hws : hd_not is_ws (print_rline rl r ++ rest)) by (rewrite Hl; exact Hc).
+    assert (Hnl : hd_not is_line_sep (print_rline rl r ++ rest)) by (rewrite Hl; apply not_ws_not_nl; exact Hc).
+    rewrite parse_nl_stay by exact Hnl. cbn [lift lbind].
+    unfold line_len_at. rewrite slice_from_at. cbn [obind lift lbind].
+    assert (Hcmt : (if awc then lookahead_is (pre ++ print_rline rl r ++ rest) [c_slash; c_slash] (byte_len pre) else Done None) = Done None).
+    { destruct awc; [|reflexivity]. rewrite lookahead_at. rewrite (Hcm eq_refl). reflexivity. }
+    rewrite Hcmt. cbn [lift lbind].
+    rewrite parse_ws_stay by exact Hws. cbn [lift lbind]. rewrite Nat.eqb_refl. cbn [negb].
+    assert (Hlen : byte_len pre =? src_len (pre ++ print_rline rl r ++ rest) = false).
+    { apply Nat.eqb_neq. unfold src_len. rewrite !byte_len_app. rewrite Hl. cbn [byte_len]. pose proof (len_utf8_pos c). lia. }
+    rewrite Hlen. rewrite lookahead_at, Hpc. cbn [lift lbind].
+    rewrite Hrule. reflexivity.
+  Qed.
+
+  (* ---- the end of the text ---- *)
+  Definition parse_tail (i : nat) (st : pstate) (errs : list err) : outcome parsed :=
+    do la <- lookahead_is src [c_percent; c_percent] i;
+    match la with
+    | Some j =>
+        do k <- parse_ws src j;
+        if k =? src_len src then Done (finish st errs)
+        else Done (PErrs (errs ++ [mk_error RoutinesNotSupported i]))
+    | None => if i =? src_len src then Done (finish st errs) else Panic
+    end.
+
+  Lemma rules_at_end : forall fuel st errs,
+    loop (S fuel) (byte_len src) st errs = TOk (byte_len src, st) errs.
+  Proof.
+    intros fuel st errs. cbn [parse_rules].
+    assert (E : src = src ++ []) by (rewrite app_nil_r; reflexivity).
+    rewrite E at 1. rewrite parse_nl_stay by exact I. cbn [lift lbind].
+    unfold line_len_at. rewrite E at 1. rewrite slice_from_at. cbn [obind lift lbind].
+    assert (Hcmt : (if awc then lookahead_is src [c_slash; c_slash] (byte_len src) else Done None) = Done None).
+    { destruct awc; [|reflexivity]. rewrite E at 1. rewrite lookahead_at. reflexivity. }
+    rewrite Hcmt. cbn [lift lbind].
+    rewrite E at 1. rewrite parse_ws_stay by exact I. cbn [lift lbind]. rewrite Nat.eqb_refl. cbn [negb].
+    unfold src_len. rewrite Nat.eqb_refl. reflexivity.
+  Qed.
+
+  Lemma tail_at_end : forall st, parse_tail (byte_len src) st [] = Done (POk st).
+  Proof.
+    intros st. unfold parse_tail.
+    assert (E : src = src ++ []) by (rewrite app_nil_r; reflexivity).
+    rewrite E at 1. rewrite lookahead_at. cbn [starts_with obind]. unfold src_len. rewrite Nat.eqb_refl. reflexivity.
+  Qed.
+
+  Lemma rules_final : forall f pre fuel st,
+    src = pre ++ print_final f -> wf_final awc f = true ->
+    exists i, loop (2 + fuel) (byte_len pre) st [] = TOk (i, st) [] /\ parse_tail i st [] = Done (POk st).
+  Proof.
+    intros f pre fuel st Hsrc Hf. destruct f as [[b|]|ws]; cbn [print_final wf_final] in *.
+    - apply andb_prop in Hf. destruct Hf as [Hawc Hb].
+      exists (byte_len src). split; [|apply tail_at_end].
+      cbn [plus]. rewrite (rules_comment pre b [] (S fuel) st [] Hawc); [| |exact Hb|exact I].
+      + replace (pre ++ [c_slash; c_slash] ++ b) with src by (rewrite Hsrc; reflexivity). apply rules_at_end.
+      + rewrite Hsrc, app_nil_r. reflexivity.
+    - exists (byte_len src). split; [|apply tail_at_end].
+      rewrite app_nil_r in Hsrc. rewrite <- Hsrc. apply rules_at_end.
+    - exists (byte_len pre). split.
+      + cbn [plus parse_rules]. rewrite Hsrc.
+        rewrite parse_nl_stay by (cbn [app hd_not]; reflexivity). cbn [lift lbind].
+        unfold line_len_at. rewrite slice_from_at. cbn [obind lift lbind].
+        assert (Hcmt : (if awc then lookahead_is (pre ++ [c_percent; c_percent] ++ ws) [c_slash; c_slash] (byte_len pre) else Done None) = Done None).
+        { destruct awc; [|reflexivity]. rewrite lookahead_at. reflexivity. }
+        rewrite Hcmt. cbn [lift lbind].
+        rewrite parse_ws_stay by (cbn [app hd_not]; reflexivity). cbn [lift lbind]. rewrite Nat.eqb_refl. cbn [negb].
+        assert (Hlen : byte_len pre =? src_len (pre ++ [c_percent; c_percent] ++ ws) = false).
+        { apply Nat.eqb_neq. unfold src_len. rewrite !byte_len_app. cbn [byte_len]. change (len_utf8 c_percent) with 1. lia. }
+        rewrite Hlen. rewrite lookahead_at. cbn [app starts_with]. rewrite !N.eqb_refl. cbn [andb lift lbind]. reflexivity.
+      + unfold parse_tail. rewrite Hsrc. rewrite lookahead_at. cbn [app starts_with]. rewrite !N.eqb_refl. cbn [andb obind].
+        replace (pre ++ c_percent :: c_percent :: ws) with ((pre ++ [c_percent; c_percent]) ++ ws ++ [])
+          by (rewrite app_nil_r, <- app_assoc; reflexivity).
+        replace (byte_len pre + byte_len [c_percent; c_percent]) with (byte_len (pre ++ [c_percent; c_percent]))
+          by (rewrite byte_len_app; reflexivity).
+        rewrite parse_ws_at; [|exact Hf|exact I]. cbn [obind].
+        unfold src_len. rewrite app_nil_r. rewrite (byte_len_app (pre ++ [c_percent; c_percent]) ws).
+        rewrite Nat.eqb_refl. reflexivity.
+  Qed.
+
+  (* ---- all rule lines ---- *)
+  Fixpoint rfuel (rs : list (arule * rline_lay)) : nat :=
+    match rs with [] => 0 | (_, rl) :: rs' => S (rcomments (rl_after rl) + rfuel rs') end.
+
+  Lemma find_dupe_snoc : forall rs r m, find_dupe rs m = None ->
+    find_dupe (rs ++ [r]) m =
+    match r_name r with Some n => if text_eqb n m then Some r else None | None => None end.
+  Proof.
+    induction rs as [|x rs IH]; intros r m H; cbn [app find_dupe] in *; [reflexivity|].
+    destruct (r_name x) as [n|]; [destruct (text_eqb n m); [discriminate|]|]; apply IH; exact H.
+  Qed.
+
+  Lemma rules_lines : forall names eof fin rs pre fuel st,
+    src = pre ++ print_rlines rs ++ fin -> (eof = true -> fin = []) ->
+    forallb (fun p => wf_arule awc names (fst p)) rs = true -> wf_rlines awc eof rs = true ->
+    forallb is_start_state_name names = true -> states_numbered names (start_states st) ->
+    nodup_b (rule_names (map fst rs)) = true ->
+    (forall n, In n (rule_names (map fst rs)) -> find_dupe (rules st) n = None) ->
+    loop (rfuel rs + fuel) (byte_len pre) st [] =
+    loop fuel (byte_len (pre ++ print_rlines rs))
+      {| rules := rules st ++ rules_of pe names (byte_len pre) rs; start_states := start_states st |} [].
+  Proof.
+    intros names eof fin rs. induction rs as [|[r rl] rs IH]; intros pre fuel st Hsrc Hfin Hwr Hwl Hv Hst Hnd Hdup.
+    - cbn [rfuel print_rlines rules_of plus]. rewrite !app_nil_r. destruct st; reflexivity.
+    - cbn [forallb fst] in Hwr. apply andb_prop in Hwr. destruct Hwr as [Hr Hwr].
+      cbn [wf_rlines] in Hwl. apply andb_prop in Hwl. destruct Hwl as [Hrl Hwl].
+      cbn [print_rlines] in *.
+      set (line := print_rline rl r) in *. set (after := print_ritems (rl_after rl)) in *.
+      (* what follows the line *)
+      assert (Hend : line_end (after ++ print_rlines rs ++ fin)).
+      { pose proof Hrl as Hrl'. unfold wf_rline in Hrl'. apply andb_prop in Hrl'. destruct Hrl' as [Hrl' Hao].
+        apply andb_prop in Hrl'. destruct Hrl' as [_ Hitems].
+        unfold after. destruct (rl_after rl) as [|[c|b nl] its]; cbn [after_ok] in Hao; [| |discriminate].
+        - apply andb_prop in Hao. destruct Hao as [He Hn]. destruct rs; [|discriminate].
+          rewrite (Hfin He). exact I.
+        - cbn [forallb wf_ritem] in Hitems. apply andb_prop in Hitems. destruct Hitems as [Hc _].
+          cbn [print_ritems flat_map print_ritem app line_end]. exact Hc. }
+      assert (Hitems : forallb (wf_ritem awc) (rl_after rl) = true).
+      { unfold wf_rline in Hrl. apply andb_prop in Hrl. destruct Hrl as [Hrl _]. apply andb_prop in Hrl. tauto. }
+      assert (Hdup1 : forall n, a_name r = Some n -> find_dupe (rules st) n = None).
+      { intros n En. apply Hdup. cbn [map fst rule_names]. rewrite En. left. reflexivity. }
+      cbn [rfuel]. replace (S (rcomments (rl_after rl) + rfuel rs) + fuel) with (S (rcomments (rl_after rl) + (rfuel rs + fuel))) by lia.
+      rewrite (rules_rule_line (eof && is_nil rs) pre (after ++ print_rlines rs ++ fin) _ st [] names rl r); try assumption.
+      2:{ rewrite Hsrc. repeat rewrite <- app_assoc. reflexivity. }
+      fold line.
+      set (st1 := push_rule st (rule_of pe names (byte_len pre) rl r)).
+      rewrite (rules_items (rl_after rl) (pre ++ line) (print_rlines rs ++ fin) _ st1 []); [| |exact Hitems].
+      2:{ rewrite Hsrc. repeat rewrite <- app_assoc. reflexivity. }
+      fold after.
+      rewrite (IH ((pre ++ line) ++ after) fuel st1); try assumption.
+      + f_equal.
+        * repeat rewrite <- app_assoc. reflexivity.
+        * unfold st1. cbn [push_rule rules start_states rules_of]. f_equal. rewrite <- app_assoc. cbn [app]. f_equal. f_equal.
+          f_equal. fold line after. repeat rewrite byte_len_app. lia.
+      + rewrite Hsrc. repeat rewrite <- app_assoc. reflexivity.
+      + cbn [map fst rule_names] in Hnd. destruct (a_name r); [|exact Hnd]. cbn [nodup_b] in Hnd. apply andb_prop in Hnd. tauto.
+      + intros n Hn. unfold st1. cbn [push_rule rules].
+        rewrite find_dupe_snoc.
+        * cbn [rule_of r_name]. destruct (a_name r) as [m|] eqn:Em; [|reflexivity].
+          cbn [map fst rule_names] in Hnd. rewrite Em in Hnd. cbn [nodup_b] in Hnd. apply andb_prop in Hnd. destruct Hnd as [Hm _].
+          apply negb_true in Hm. rewrite text_eqb_neq; [reflexivity|]. intros ->. apply (mem_text_false _ _ Hm). exact Hn.
+        * apply Hdup. cbn [map fst rule_names]. destruct (a_name r); [right; exact Hn|exact Hn].
+  Qed.
+
+  Lemma rline_nonempty : forall rl r, 1 <= byte_len (print_rline rl r).
+  Proof.
+    intros rl r. unfold print_rline, rline_head, rline_re_field. rewrite !byte_len_app. cbn [byte_len].
+    pose proof (len_utf8_pos (rl_sp rl)). lia.
+  Qed.
+
+  Lemma rfuel_le : forall rs, rfuel rs <= byte_len (print_rlines rs).
+  Proof.
+    induction rs as [|[r rl] rs IH]; [simpl; lia|]. cbn [rfuel print_rlines]. rewrite !byte_len_app.
+    pose proof (rcomments_le (rl_after rl)). pose proof (rline_nonempty rl r). lia.
+  Qed.
+End Loop.
+
+(* ---- the whole text ------------------------------------------------------------------------------ *)
+Lemma map_fst_combine : forall (A B : Type) (a : list A) (b : list B),
+  length a = length b -> map fst (combine a b) = a.
+Proof.
+  intros A B a. induction a as [|x a IH]; intros [|y b] H; simpl in *; try reflexivity; try discriminate.
+  f_equal. apply IH. lia.
+Qed.
+
+Lemma forallb_combine_fst : forall (A B : Type) (f : A -> bool) (a : list A) (b : list B),
+  forallb f a = true -> forallb (fun p => f (fst p)) (combine a b) = true.
+Proof.
+  intros A B f a. induction a as [|x a IH]; intros [|y b] H; simpl in *; try reflexivity.
+  apply andb_prop in H. destruct H as [Hx H]. rewrite Hx, (IH b H). reflexivity.
+Qed.
+
+Lemma line_sep_not_space : forall c, is_line_sep c = true -> is_space_sep c = false.
+Proof. intros c H. unfold is_line_sep in H. by_members H. Qed.
+
+Lemma rules_section_start : forall awc lay sp,
+  wf_aspec awc sp = true -> wf_layout awc lay sp = true ->
+  hd_not is_space_sep (print_rules_section lay sp).
+Proof.
+  intros awc lay sp Hsp Hlay. unfold print_rules_section.
+  unfold wf_layout in Hlay.
+  apply andb_prop in Hlay. destruct Hlay as [Hlay _]. apply andb_prop in Hlay. destruct Hlay as [Hlay Hrl].
+  apply andb_prop in Hlay. destruct Hlay as [Hlay _]. apply andb_prop in Hlay. destruct Hlay as [_ Hg0].
+  destruct (l_gap0 lay) as [|[c|b nl] its].
+  - cbn [print_ritems flat_map app].
+    destruct (combine (a_rules sp) (l_rlines lay)) as [|[r rl] rs] eqn:Ec.
+    + cbn [print_rlines app]. destruct (l_final lay) as [[b|]|ws]; cbn [print_final app hd_not]; reflexivity || exact I.
+    + cbn [print_rlines wf_rlines] in *. apply andb_prop in Hrl. destruct Hrl as [Hrl _].
+      assert (Hr : wf_arule awc (state_names sp) r = true).
+      { unfold wf_aspec in Hsp. apply andb_prop in Hsp. destruct Hsp as [Hsp _]. apply andb_prop in Hsp. destruct Hsp as [_ Hrs].
+        rewrite forallb_forall in Hrs. apply Hrs.
+        apply (in_combine_l (a_rules sp) (l_rlines lay) r rl). rewrite Ec. left. reflexivity. }
+      destruct (rline_start awc (state_names sp) _ rl r [] Hr Hrl) as [[c [tl [Hl Hc]]] _].
+      rewrite Hl. cbn [app hd_not]. apply not_ws_not_space. exact Hc.
+  - cbn [forallb wf_ritem] in Hg0. apply andb_prop in Hg0. destruct Hg0 as [Hc _].
+    cbn [print_ritems flat_map print_ritem app hd_not]. apply line_sep_not_space. exact Hc.
+  - cbn [print_ritems flat_map print_ritem app hd_not]. reflexivity.
+Qed.
+
+Lemma state_names_valid : forall awc sp, wf_aspec awc sp = true -> forallb is_start_state_name (state_names sp) = true.
+Proof.
+  intros awc sp H. unfold wf_aspec in H. apply andb_prop in H. destruct H as [H _]. apply andb_prop in H. destruct H as [H _].
+  apply andb_prop in H. destruct H as [H _]. unfold state_names. cbn [forallb].
+  change (is_start_state_name initial_name) with true. cbn [andb].
+  induction (a_states sp) as [|s l IH]; [reflexivity|]. cbn [map forallb] in *. apply andb_prop in H. destruct H as [Hs H].
+  rewrite Hs, (IH H). reflexivity.
+Qed.
+
+Lemma lex_roundtrip : lex_roundtrip_stmt.
+Proof.
+  intros awc pe lay sp Hsp Hlay.
+  unfold lex_from_str. rewrite slice_from_0. cbn [obind fix_header repaired].
+  set (src := print_spec lay sp).
+  set (D := print_decl_section lay sp).
+  set (rs := combine (a_rules sp) (l_rlines lay)).
+  set (G := print_ritems (l_gap0 lay)).
+  set (names := state_names sp).
+  assert (Hsrc : src = D ++ G ++ print_rlines rs ++ print_final (l_final lay)) by reflexivity.
+  (* the layout, unpacked *)
+  pose proof Hlay as Hlay'. unfold wf_layout in Hlay'.
+  apply andb_prop in Hlay'. destruct Hlay' as [Hlay' Hfinal]. apply andb_prop in Hlay'. destruct Hlay' as [Hlay' Hrl].
+  apply andb_prop in Hlay'. destruct Hlay' as [Hlay' Hlen]. apply andb_prop in Hlay'. destruct Hlay' as [_ Hg0].
+  apply Nat.eqb_eq in Hlen.
+  pose proof Hsp as Hsp'. unfold wf_aspec in Hsp'.
+  apply andb_prop in Hsp'. destruct Hsp' as [Hsp' Hnd]. apply andb_prop in Hsp'. destruct Hsp' as [_ Hrules].
+  (* declarations *)
+  unfold parse.
+  assert (Hdecl : parse_declarations src awc (fuel_for src) 0 initial_state [] =
+                  TOk (byte_len D, {| rules := []; start_states := states_of_spec lay sp |}) []).
+  { apply (declarations_roundtrip awc lay sp (print_rules_section lay sp) (fuel_for src) Hsp Hlay).
+    - pose proof (rules_section_start awc lay sp Hsp Hlay) as H. destruct (print_rules_section lay sp); exact H.
+    - unfold fuel_for, src, print_spec. rewrite byte_len_app. lia. }
+  rewrite Hdecl.
+  set (st0 := {| rules := []; start_states := states_of_spec lay sp |}).
+  (* fuel *)
+  assert (Hfuel : exists extra, fuel_for src = rcomments (l_gap0 lay) + (rfuel rs + (2 + extra))).
+  { exists (fuel_for src - (rcomments (l_gap0 lay) + (rfuel rs + 2))).
+    pose proof (rcomments_le (l_gap0 lay)). pose proof (rfuel_le rs).
+    unfold fuel_for. rewrite Hsrc. rewrite !byte_len_app. unfold G. lia. }
+  destruct Hfuel as [extra Hfuel]. rewrite Hfuel.
+  rewrite (rules_items src awc pe (l_gap0 lay) D (print_rlines rs ++ print_final (l_final lay)) _ st0 [] Hsrc Hg0).
+  fold G.
+  rewrite (rules_lines src awc pe names (final_is_eof (l_final lay)) (print_final (l_final lay)) rs (D ++ G) (2 + extra) st0).
+  - destruct (rules_final src awc pe (l_final lay) ((D ++ G) ++ print_rlines rs) extra
+               {| rules := rules st0 ++ rules_of pe names (byte_len (D ++ G)) rs; start_states := start_states st0 |})
+      as [i [Hloop Htail]]; [rewrite Hsrc; repeat rewrite <- app_assoc; reflexivity|exact Hfinal|].
+    rewrite Hloop. exact Htail.
+  - rewrite Hsrc. repeat rewrite <- app_assoc. reflexivity.
+  - intros He. destruct (l_final lay) as [[b|]|ws]; try discriminate. reflexivity.
+  - apply forallb_combine_fst. exact Hrules.
+  - exact Hrl.
+  - apply (state_names_valid awc). exact Hsp.
+  - apply (states_of_spec_numbered awc). exact Hsp. exact Hlay.
+  - unfold rs. rewrite map_fst_combine by (symmetry; exact Hlen). exact Hnd.
+  - intros n _. reflexivity.
+Qed.
+
+Lemma lex_roundtrip_default : lex_roundtrip_default_stmt.
+Proof. intros lay sp H1 H2. apply lex_roundtrip; assumption. Qed.
+
+(* ---- what spec_of is ---------------------------------------------------------------------------------- *)
+Lemma rules_of_maps : forall pe names rs off,
+  map r_name (rules_of pe names off rs) = map (fun p => a_name (fst p)) rs /\
+  map r_re_str (rules_of pe names off rs) = map (fun p => map_escapes pe (a_re (fst p))) rs /\
+  map r_start_states (rules_of pe names off rs) =
+    map (fun p => map (fun n => index_of n names) (a_pre (fst p))) rs /\
+  map r_target (rules_of pe names off rs) = map (fun p => target_of names (a_target (fst p))) rs.
+Proof.
+  intros pe names rs. induction rs as [|[r rl] rs IH]; intros off; [repeat split; reflexivity|].
+  cbn [rules_of map fst]. destruct (IH (off + byte_len (print_rline rl r ++ print_ritems (rl_after rl)))) as [H1 [H2 [H3 H4]]].
+  rewrite H1, H2, H3, H4. repeat split; reflexivity.
+Qed.
+
+Lemma map_combine_fst : forall (A B C : Type) (F : A -> C) (a : list A) (b : list B),
+  length a = length b -> map (fun p => F (fst p)) (combine a b) = map F a.
+Proof. intros A B C F a b H. rewrite <- (map_map fst F). rewrite map_fst_combine by exact H. reflexivity. Qed.
+
+Lemma spec_of_faithful : spec_of_faithful_stmt.
+Proof.
+  intros awc pe lay sp Hlen Hd st. unfold st, spec_of. cbn [rules start_states].
+  destruct (rules_of_maps pe (state_names sp)
+              (combine (a_rules sp) (l_rlines lay))
+              (byte_len (print_decl_section lay sp ++ print_ritems (l_gap0 lay)))) as [H1 [H2 [H3 H4]]].
+  destruct (states_of_spec_kinds awc lay sp Hd) as [S1 [S2 S3]].
+  rewrite H1, H2, H3, H4. symmetry in Hlen.
+  repeat split; try assumption.
+  - apply (map_combine_fst _ _ _ a_name). exact Hlen.
+  - apply (map_combine_fst _ _ _ (fun r => map_escapes pe (a_re r))). exact Hlen.
+  - apply (map_combine_fst _ _ _ (fun r => map (fun n => index_of n (state_names sp)) (a_pre r))). exact Hlen.
+  - apply (map_combine_fst _ _ _ (fun r => target_of (state_names sp) (a_target r))). exact Hlen.
+Qed.
+
+(* ---- the hypotheses are satisfiable --------------------------------------------------------------------- *)
+Lemma roundtrip_example : roundtrip_example_stmt.
+Proof.
+  split; [intros []; split; vm_compute; reflexivity|].
+  repeat split; vm_compute; reflexivity.
+Qed.
+
+(* the example text, parsed: the theorem applies to it under both settings of awc *)
+Example roundtrip_example_parsed :
+  lex_from_str repaired (print_spec (ex_layout true) ex_spec) 0 true false [] =
+    Done (POk (spec_of false (ex_layout true) ex_spec)).
+Proof. apply lex_roundtrip; apply roundtrip_example. Qed.
